@@ -180,9 +180,6 @@ Proof.
     + rewrite Hnext. apply IH; [lia|exact Hk|lia|exact Hhi].
 Qed.
 
-Lemma seg_0 bs a : seg bs a 0 = 0.
-Proof. reflexivity. Qed.
-
 Lemma four_words {A} (f : nat -> A) : [f 0; f 1; f 2; f 3] = map f (seq 0 4).
 Proof. reflexivity. Qed.
 
